@@ -377,6 +377,15 @@ Definition init_state (rl : rule) : res state :=
   let year := s_y rl in let month := s_m rl in let day := s_d rl in
   let hour := s_H rl in let minute := s_M rl in let second := s_S rl in
   let wd := Cal.weekday year month day in
+  (* 802-811: WEEKLY + BYSETPOS starts the first period at the week start *)
+  let '(year, month, day, wd) :=
+    if (freq rl =? WEEKLY) && truthy (bysetpos rl) then
+      let back := (wd - wkst rl) mod 7 in
+      let o := ord_of_ymd year month day in
+      if negb (back =? 0) && (1 <=? o - back) then
+        let '(y', m', d') := ymd_of_ord (o - back) in (y', m', d', wkst rl)
+      else (year, month, day, wd)
+    else (year, month, day, wd) in
   do ii <- rebuild rl ii_init year month;
   do ts <-
     (if freq rl <? HOURLY then
